@@ -676,6 +676,27 @@ def _exec_faults(plan, sb, rtflite, conv_mod, arg) -> dict:
         if os.path.islink(targ_abs):
             ev["link_key"] = sb.key_of(os.path.join(os.path.dirname(targ_abs), os.readlink(targ_abs)))
         ev["target_is_dir"] = os.path.isdir(targ_abs) and not os.path.islink(targ_abs)
+        if os.path.isdir(os.path.dirname(targ_abs)) and not op.get("recovery"):
+            # NEIGHBOURS: things next to the target that the export does not own (another report's resource
+            # folder, backups, an editor's lock file, a similarly named directory) - nothing may touch them
+            tdir_, tname_ = os.path.split(targ_abs)
+            stem_, suf_ = os.path.splitext(tname_)
+            for nb, is_dir in ((f"{stem_}.v2{suf_ or '.html'}_files", True), (f"{tname_}.bak_files", True),
+                               (f"{stem_}_files", True), (f"{tname_}_files.old", True), (f"{tname_}.bak", False),
+                               (f".~lock.{tname_}#", False), (f"{stem_}2{suf_}", False)):
+                pnb = os.path.join(tdir_, nb)
+                if os.path.lexists(pnb) or pnb == targ_abs:
+                    continue
+                try:
+                    if is_dir:
+                        os.makedirs(pnb)
+                        with open(os.path.join(pnb, "image1.png"), "wb") as fh:
+                            fh.write(b"neighbour resource " + nb.encode("utf-8", "replace"))
+                    else:
+                        with open(pnb, "wb") as fh:
+                            fh.write(b"neighbour " + nb.encode("utf-8", "replace"))
+                except OSError:
+                    pass
         ev["target_pre_state"] = ("exists" if os.path.lexists(targ_abs) else
                                   ("missing_parents" if not os.path.isdir(os.path.dirname(targ_abs)) else "absent"))
         fault = op["fault"]
